@@ -48,9 +48,11 @@ class Executor(object):
         else:
             self.ex = expected_content(fs)
         self.chans = [p for p in self.ex.channel_paths()]
+        self.data = data
         self.stream = RecordingStream(data)
         self.tf = None
         self.iters = []
+        self.held = []          # (request, array as returned, bytes when returned)
         self.nt = False
         self.ops_done = 0
         try:
@@ -95,6 +97,29 @@ class Executor(object):
     def _v(self, clause, msg, key=None):
         self.viol.append((clause, 'after %d ops: %s' % (self.ops_done, msg), key))
 
+    def _hold(self, request, arr):
+        if isinstance(arr, np.ndarray) and arr.dtype != object and len(self.held) < 200:
+            self.held.append((request, arr, arr.tobytes()))
+
+    @staticmethod
+    def _shape_of(x):
+        """representation of a result: container type, dtype (with byte order) and shape"""
+        if isinstance(x, np.ndarray):
+            return (type(x).__name__, x.dtype.str, tuple(x.shape))
+        if isinstance(x, (list, tuple)):
+            return (type(x).__name__, len(x))
+        return (type(x).__name__,)
+
+    def _fresh_same_shape(self, p, got, request, fn):
+        """the same request on a freshly opened file must give the same kind of result (container, dtype, shape)"""
+        from nptdms import TdmsFile
+        g, c = split_path(p)
+        with TdmsFile.open(io.BytesIO(self.data), raw_timestamps=True) as fresh:
+            want = fn(fresh[g][c])
+        a, b = self._shape_of(got), self._shape_of(want)
+        if a != b:
+            self._v('representation', '%s returned %r, on a freshly opened file the same request returns %r' % (request, a, b))
+
     def _same(self, t, want, got, where):
         """want / got are arrays as returned by chunk[:]"""
         if t is None:
@@ -117,6 +142,7 @@ class Executor(object):
                 msgs = compare_scalars(t, vals, [got], [i % n], '%s[%d]' % (p, i), True)
                 if msgs:
                     self._v('index', msgs[0])
+                self._fresh_same_shape(p, got, '%s[%d]' % (p, i), lambda f: f[i])
             elif kind == 'slice':
                 p, ch, t, vals, n = self._chan(op[1])
                 if t is None:
@@ -128,6 +154,8 @@ class Executor(object):
                 msgs = compare_values(t, slice_vals(t, vals, slice(a, b, s)), got, '%s[%r:%r:%r]' % (p, a, b, s), True)
                 if msgs:
                     self._v('slice', msgs[0])
+                self._fresh_same_shape(p, got, '%s[%r:%r:%r]' % (p, a, b, s), lambda f: f[a:b:s])
+                self._hold('%s[%r:%r:%r]' % (p, a, b, s), got)
             elif kind == 'window':
                 p, ch, t, vals, n = self._chan(op[1])
                 if t is None:
@@ -140,6 +168,8 @@ class Executor(object):
                 msgs = compare_values(t, want, got, '%s.read_data(%d,%r)' % (p, o, l), True)
                 if msgs:
                     self._v('window', msgs[0])
+                self._fresh_same_shape(p, got, '%s.read_data(%d,%r)' % (p, o, l), lambda f: f.read_data(o, l, scaled=scaled))
+                self._hold('%s.read_data(%d,%r)' % (p, o, l), got)
             elif kind == 'values':
                 p, ch, t, vals, n = self._chan(op[1])
                 if t is None:
@@ -203,7 +233,9 @@ class Executor(object):
             off, want = canon[k]
             if chunk.offset != off:
                 self._v('chunk_offset', '%s chunk %d offset %d, fresh iterator %d' % (p, k, chunk.offset, off))
-            msgs = self._same(t, want, chunk[:], '%s chunk %d' % (p, k))
+            got = chunk[:]
+            self._hold('%s chunk %d' % (p, k), got)
+            msgs = self._same(t, want, got, '%s chunk %d' % (p, k))
             if msgs:
                 self._v('chunk_values:channel', msgs[0])
         else:
@@ -239,6 +271,11 @@ class Executor(object):
                 except Exception as e:      # noqa
                     self._v('drain:raised', describe_exc(e), exc_key(e))
                     break
+        for (request, arr, snap) in self.held:
+            if arr.tobytes() != snap:
+                self._v('result_mutated', 'the array returned by %s was changed by later operations: it held %r, now %r' % (
+                    request, np.frombuffer(snap, dtype=arr.dtype)[:4], arr[:4]))
+                break
         try:
             self.tf.close()
         except Exception as e:      # noqa
